@@ -9,7 +9,7 @@ VERIF = os.path.dirname(os.path.dirname(os.path.abspath(__file__)))
 CHECKS = {
     "C01": (
         "exception-escape analysis (raising-construct census, handler class coverage, abstract-interpreter bounds for indices/arity/divisors/struct offsets/byte ranges, regex language of conversion arguments, reviewed exemptions with re-checked conditions, propagation over the call graph) + termination audit (ranking templates for every while/for/recursion, stack-drain certificate from the span bounds)",
-        "Decides that no exception class can propagate out of scan / scan_node / flatten / iteration / string_summary / make_label / tree_to_json given the declared summaries of library functions, and that every loop and recursion cycle has a ranking argument. Also decides whether the recursion depth of the read-only views is bounded by the depth budget (it is not: three recorded known findings, RecursionError on ~1000 nested contexts). Partial: third-party code beyond the declared table, xortool's numeric core, MemoryError and regex running time are assumed, not decided.",
+        "Decides that no exception class can propagate out of scan / scan_node / flatten / iteration / string_summary / make_label / tree_to_json given the declared summaries of library functions, and that every loop and recursion cycle has a ranking argument. Also decides that every branching recursion (one recursive call per element at every level: xortool.all_keys) is entered only under a dominating bound on the product of the collection sizes (R4; D29 found and repaired), and whether the recursion depth of the read-only views is bounded by the depth budget (it is not: three recorded known findings, RecursionError on ~1000 nested contexts). Partial: third-party code beyond the declared table, xortool's numeric core, MemoryError and regex running time are assumed, not decided.",
         "Trusted: EXTERNAL_RAISES table, pefile raising only PEFormatError, xortool arithmetic, reviewed exemptions (each listed with its re-checked condition in the evidence). Three recorded known findings (recursive views vs unbounded context nesting).",
         "DESIGN.md 2.3, 2.5, 3/C01",
     ),
